@@ -291,6 +291,7 @@ def cmp_total_ob(model: Model):
 
 
 def check(model: Model, tier: str):
+    model.use_inlined("_decomposition.to_tt", "_decomposition.mat_to_tt", "_decomposition.round_tt")   # helpers around the rank selection are read in place
     obs = []
     obs += allowance_sites(model, "_decomposition.to_tt", SHARE)
     # eps flows from the constructor to to_tt / mat_to_tt and from mat_to_tt to to_tt
